@@ -90,6 +90,19 @@ def _convert_returns(stmts, ret: str) -> list:
             new.handlers = hs
             out.append(new)
             return out
+        if isinstance(s, ast.Try) and _has_return([s]) and rest and not s.finalbody and not _has_return(s.body) and not _has_return(s.orelse) and all(_always_exits(h.body) for h in s.handlers):
+            # every handler leaves the function: what follows the try statement runs only when no handler ran,
+            # i.e. it is the else clause of the try (not guarded by the handlers either way)
+            new = copy.copy(s)
+            hs = []
+            for h in s.handlers:
+                h2 = copy.copy(h)
+                h2.body = _convert_returns(h.body, ret)
+                hs.append(h2)
+            new.handlers = hs
+            new.orelse = list(s.orelse) + _convert_returns(list(rest), ret)
+            out.append(new)
+            return out
         if isinstance(s, (ast.For, ast.While, ast.Try, ast.AsyncFor, ast.AsyncWith)) and _has_return([s]):
             raise _NotInlinable("return inside a loop or try block")
         out.append(s)
@@ -166,8 +179,10 @@ class Inliner:
             return None
         if self.only is not None and h.name not in self.only:
             return None
-        if h.is_property or h.is_abstract or h.parent is not None:
+        if h.is_property or h.is_abstract:
             return None
+        if h.parent is not None and h.parent.node is not getattr(getattr(fi, "origin", fi), "node", None):
+            return None  # a closure is expanded only inside the function that defines it (its free names stay valid)
         if h.cls is not None and any(h.name in sub.methods for sub in self.prog.subclasses(h.cls)):
             return None  # an override may be the real target
         if h.name.startswith("__") and h.name.endswith("__"):
